@@ -149,6 +149,8 @@ type StmtOpts struct {
 	NoScan bool
 	// InsertOnly restricts the kinds to plain INSERT.
 	InsertOnly bool
+	// Pred carries the exclusions to apply to generated WHERE clauses.
+	Pred QueryOpts
 }
 
 // GenStmt draws one DML statement for table t. used is updated with the keys
@@ -167,7 +169,9 @@ func GenStmt(rt *rapid.T, t *Table, used KeySet, o StmtOpts) *Stmt {
 		kind = rapid.SampledFrom(kinds).Draw(rt, "stmtKind")
 	}
 	s := &Stmt{Kind: kind, T: t}
-	g := NewGen(rt, QueryOpts{NoParams: true, NoSubquery: true})
+	po := o.Pred
+	po.NoParams, po.NoSubquery = true, true
+	g := NewGen(rt, po)
 	self := From{T: t, Alias: ""}
 	var settable []*Column
 	for _, c := range t.Cols {
